@@ -76,7 +76,8 @@ class C04(Prop):
                                      expected='an impl of ' + tr, observed=[p[0] for p in r.actual]))
                 continue
             # `Self` inside the impl generics is only right in an impl FOR the type itself
-            unexp = [p for p in mine if ' for & ' in p[1] and ' Self ' in (' ' + _impl_generics(p[1]) + ' ')]
+            unexp = [p for p in mine if ' for & ' in p[1] and (' Self ' in (' ' + _impl_generics(p[1]) + ' ')
+                                                               or ' Self ' in (' ' + where_of(p[1]) + ' '))]
             if unexp:
                 failures.append(dict(**{'class': 'self-not-expanded-in-impl-generics', 'mode': 'header'}, input=r.input_text(),
                                      expected='`Self` of the declared generics replaced by the type in an impl for a reference',
@@ -89,9 +90,12 @@ class C04(Prop):
                                      expected=len(forms), observed=len(mine)))
                 continue
             bad = None
+            # `Self` in the declared predicates: written out as the type (equivalent in an impl for the type itself,
+            # required in an impl for a reference to it - checked above)
+            declared = [(' ' + d + ' ').replace(' Self ', ' ' + m['this'] + ' ').strip() for d in m.get('declared', [])] or None
             for p, form in zip(mine, forms):
-                want = norm_hrtb(where_text(tr, kind, form, ts, ps))
-                got = where_of(p[1])
+                want = norm_hrtb(where_text(tr, kind, form, ts, ps, declared))
+                got = (' ' + where_of(p[1]) + ' ').replace(' Self ', ' ' + m['this'] + ' ').strip()
                 if want != got:
                     bad = (want, got)
                     break
@@ -101,8 +105,8 @@ class C04(Prop):
                 sec = [p for p in r.actual if p[0] == 'IMPL' and _impl_trait(p[1]) == tpath(m['second'])]
                 if len(sec) == 1:
                     ts2, ps2 = expected_where_second(m)
-                    want = norm_hrtb(where_text(m['second'], 'plain', None, ts2, ps2))
-                    got = where_of(sec[0][1])
+                    want = norm_hrtb(where_text(m['second'], 'plain', None, ts2, ps2, declared))
+                    got = (' ' + where_of(sec[0][1]) + ' ').replace(' Self ', ' ' + m['this'] + ' ').strip()
                     if want != got:
                         bad = (want, got)
             if bad:
